@@ -196,13 +196,27 @@ IdealCleanup(G) ==
 
 (***************************************************************************)
 (* C11  check(): cross-reference reports are sound and complete            *)
-(*   reports: set of <<ownerKind, ownerName, targetName>>                  *)
-(*   thisOk : set of <<ownerKind, ownerName, targetName>> references that  *)
-(*            use the THIS. convention legitimately                        *)
+(*   reports : set of reported target names                                *)
+(*   comps   : set of <<TYPEDEF_STRUCTURE name, component name, component  *)
+(*             type>> (needed for the THIS. convention)                    *)
+(*   this    : set of <<name, suffix>> for every name of the form THIS.x   *)
 (***************************************************************************)
-Dangling(G, thisOk) ==
-    {<<r[2], r[3], r[4]>> : r \in {x \in Refs(G) : SiteChecked[x[1]] /\ ~Resolves(G, x) /\ <<x[2], x[3], x[4]>> \notin thisOk}}
-CheckOK(G, reports, thisOk) ==
-    /\ Chk("Sound", \A rp \in reports : rp \in Dangling(G, thisOk))
-    /\ Chk("Complete", \A d \in Dangling(G, thisOk) : d \in reports)
+ThisSites == {"TYPEDEF_CHARACTERISTIC/AXIS_DESCR/AXIS_PTS_REF.axis_points",
+              "TYPEDEF_CHARACTERISTIC/AXIS_DESCR/CURVE_AXIS_REF.curve_axis"}
+\* what check() has to report for the reference r (the empty set if it resolves)
+ExpectedReport(G, r, comps, this) ==
+    IF ~SiteChecked[r[1]] \/ IsNeutral(r) THEN {}
+    ELSE LET direct == \E i \in Refs(G) : i[1] = "INSTANCE.type_ref" /\ i[4] = r[3]
+             containing == {c[1] : c \in {x \in comps : x[3] = r[3]}}
+             isThis == \E p \in this : p[1] = r[4]
+         IN IF r[1] \in ThisSites /\ ~direct /\ containing # {} /\ isThis
+            THEN \* a TYPEDEF_CHARACTERISTIC that is only used as a structure component may refer to a
+                 \* sibling component as THIS.x; every containing structure must have a component x
+                 LET x == (CHOOSE p \in this : p[1] = r[4])[2] IN
+                 IF \A ts \in containing : \E c \in comps : c[1] = ts /\ c[2] = x THEN {} ELSE {x}
+            ELSE IF r[4] \in Names(G, SiteTarget[r[1]]) THEN {} ELSE {r[4]}
+ExpectedReports(G, comps, this) == UNION {ExpectedReport(G, r, comps, this) : r \in Refs(G)}
+CheckOK(G, reports, comps, this) ==
+    /\ Chk("Sound", \A t \in reports : t \in ExpectedReports(G, comps, this))
+    /\ Chk("Complete", \A t \in ExpectedReports(G, comps, this) : t \in reports)
 =============================================================================
